@@ -17,7 +17,7 @@ import (
 // C02 — every violated rule is reported exactly once, in order; nil iff none.
 
 func c02TypeOpts(plan tagPlan) gen.TypeOpts {
-	return gen.TypeOpts{MaxFields: 6, MaxDepth: 2, Leaf: vLeafTypes, Unexported: true, Ptr: true, PtrPtr: true, Slices: true, Arrays: true, Maps: true, Tag: plan.ruleTag}
+	return gen.TypeOpts{MaxFields: 6, MaxDepth: 2, Leaf: vLeafTypes, Unexported: true, Ptr: true, PtrPtr: true, Slices: true, Arrays: true, Maps: true, Tag: plan.ruleTag, Time: true}
 }
 
 func noteExps(res *core.Result, exps []ref.Exp) {
@@ -79,6 +79,10 @@ func runC02(c *core.Ctx) {
 	N := c.Pick(1500, 40000)
 	for i := 0; i < N; i++ {
 		t := gen.RandStruct(rng, to)
+		if i%3 == 2 && len(namedTypesAll) > 0 {
+			t = namedTypesAll[rng.Intn(len(namedTypesAll))]
+			res.Count("named_type_cases")
+		}
 		for j := 0; j < 3; j++ {
 			v := tunedFill(rng, t, "valid", 0.15)
 			c02StructCase(res, rng, t, v, i*3+j)
